@@ -92,12 +92,12 @@ theorem opl_missing_attributes_default (id : Int) (h0 : int64Min < id) (h1 : id 
   have hp' : pId idb = .ok (id, []) := by simpa using hp [] rfl
   refine ⟨idb, hid, ?_, ?_, ?_⟩
   · rw [parseLine_node, pObject, hp']
-    simp [attrLoop, loopFuel, finishTags, metaOf]
+    simp [attrLoop, loopFuel, setUserCheck, maxString, finishTags, metaOf]
     decide
   · rw [parseLine_way, pObject, hp']
-    simp [attrLoop, loopFuel, finishTags, metaOf]
+    simp [attrLoop, loopFuel, setUserCheck, maxString, finishTags, metaOf]
   · rw [parseLine_relation, pObject, hp']
-    simp [attrLoop, loopFuel, finishTags, metaOf]
+    simp [attrLoop, loopFuel, setUserCheck, maxString, finishTags, metaOf]
 
 /-- **Entity-type filter**: a filtered type is skipped without being parsed; the other types are
     read exactly as without a filter. -/
